@@ -769,6 +769,19 @@ class FnTranslatorX(rs.FnTranslator):
                 if t != ft:
                     self.err("field `%s` of `%s` has type %r, the spec says %r" % (f, e.name, t, ft), e)
             return "(" + ", ".join(p[0] for p in parts) + ")", rt
+        if k == "index" and e.idx.kind == "range":
+            # `&v[a..b]` as a value: the sub-list (bounds checked)
+            b, bt = self.expr(e.base, code)
+            if not isinstance(bt, TSeq):
+                self.err("slice of %r" % (bt,), e)
+            r = e.idx
+            if r.incl:
+                self.err("inclusive slice bounds", e)
+            lo = "0" if r.lo is None else self.expr(r.lo, code, TInt("usize"))[0]
+            hi = ("%s.length" % atom(b)) if r.hi is None else self.expr(r.hi, code, TInt("usize"))[0]
+            t = self.tmp()
+            code.bind(t, ("call", "Rs.slice %s %s %s" % (atom(b), atom(lo), atom(hi))))
+            return t, TSeq(bt.elem)
         if k == "index" and e.idx.kind != "range":
             # base may be a record field etc.; same as the base class, repeated here because the base class evaluates
             # `self.f` only for direct fields
